@@ -361,7 +361,7 @@ func runC03(c *core.Ctx) core.Meta {
 					case "WriteOperand", "WriteOperandBytes":
 						st4.Instances++
 						pv := prov.Of(cc.Args[0])
-						ok := regexp.MustCompile(`\.Inst\(\)\.(Dst|SDst|Data)$`).MatchString(pv) || strings.HasPrefix(pv, "param:")
+						ok := regexp.MustCompile(`\.Inst\(\)\.(Dst|SDst|Data)$`).MatchString(pv) || (strings.HasPrefix(pv, "param:") && !strings.Contains(pv, ".Inst()."))
 						st4.Ob(ok)
 						if !ok {
 							c.ReportAt("R03.4", fn, in.Pos(), "write-to:"+pv[strings.LastIndex(pv, ".")+1:], "a handler writes operand "+pv+", which is not a destination field of the instruction: a source register is modified")
